@@ -269,6 +269,14 @@ APPEND["C13"] = (" Transport dimension: KeepAlive.tla Part 1b tabulates 46 concr
                  "runs the same loop on all consumable class scripts <= threshold+1 (2 598 cases quick, 32 826 thorough, 307k states) and the harness plays them on real "
                  "sessions over the real StreamableClientTransport / SSEClientTransport (scripted RoundTripper), a real Server behind StreamableHTTPHandler.ServeHTTP and "
                  "scripted stream connections; KeepAliveMon takes every ping's verdict from the model's table.")
+APPEND["C06"] = (" Handlers with a duration: LifecycleRun.tla adds events send(letter, held)/release(n) over a code-shaped dispatch queue (calls released before their "
+                 "handler, notifications/initialize in the queue) and the clause PingAlwaysServed (every delivered legacy ping answered at the next quiescence unless a "
+                 "notification/initialize handler entered earlier is still running); TLC enumerates every script (4 phase prefixes x parked message x messages sent meanwhile x "
+                 "releases; 1.9k quick / ~27k thorough), refutes two what-ifs in which a feature call holds the queue, and the scripts are replayed with parked "
+                 "tool/prompt/completion/notification handlers under synctest (monitor LifecycleRunMon). HTTP: LifecycleHttp.tla is the decision table endpoint/session phase x "
+                 "Mcp-Protocol-Version header class x body _meta class x method (1,080 cases, header and body crossed), HHolds(c, HExpected(c)) checked by TLC, every case run in "
+                 "process on stateful and stateless handlers (monitor LifecycleHttpMon). LifecycleInd.tla carries an inductive invariant over all 833 letters and unbounded "
+                 "sequence length that Apalache discharges (opt-in hook, ~2 min).")
 REPLACE = {
     "C14": ("BearerDefs.tla holds the value classes, the code-shaped Expected and the declarative property Holds (iff admission, status by cause, challenge content, "
             "same token info); Bearer.tla holds the case space of 92 354 cases: the core product of 81 600 (header shapes x verifier outcomes incl. error-with-info x "
